@@ -3,7 +3,7 @@ from __future__ import annotations
 
 import importlib
 
-OP_MODULES = ["contracts.c05", "contracts.c06", "contracts.c11", "contracts.c13", "contracts.c40", "contracts.c17"]
+OP_MODULES = ["contracts.c05", "contracts.c06", "contracts.c11", "contracts.c13", "contracts.c40", "contracts.c17", "contracts.c17q"]
 MONITOR_MODULES = ["contracts.c26"]
 
 
@@ -90,7 +90,7 @@ FAMILIES = {
     "C12": ["op"],
     "C13": ["op"],
     "C16": ["op", "timedextra"],
-    "C17": ["op", "timedextra"],
+    "C17": ["op", "seqlemma", "timedextra"],
     "C28": ["vts"],
     "C29": ["vts"],
     "C25": ["monitor"],
@@ -123,6 +123,8 @@ def units_for(prop, tier):
         us.append({"runner": "replay", "prop": prop, "id": "reactivex/subject/replaysubject.py::ReplaySubject"})
     if "timedextra" in fams:
         us.append({"runner": "timedextra", "prop": prop, "id": f"timed-operators-not-under-contract/{prop}"})
+    if "seqlemma" in fams:
+        us.append({"runner": "seqlemma", "prop": prop, "id": "specs/c17q.py::queue-functions"})
     if "mcast" in fams:
         us.append({"runner": "mcast", "prop": prop, "id": "reactivex/observable/connectableobservable.py::multicasting"})
     if "seqcomp" in fams:
